@@ -21,6 +21,7 @@ try:
     r = subprocess.run("bash -c '. /verif/scripts/env.sh && go build ./... && go vet ./" + os.path.dirname(path) + "'", shell=True, cwd=scratch, capture_output=True, text=True)
     if r.returncode != 0:
         print("BUILD/VET FAILED:\n" + r.stdout + r.stderr)
+        os.remove(out)
         sys.exit(1)
     print("ok", out)
 finally:
